@@ -225,6 +225,21 @@ def d4_find_centers(ck):
                 isinstance(s.value.value, ast.Call) and call_name(s.value.value) == 'np.where':
             mem = s
     if mem is None:
+        # alternative idiom: argmin over the full array with non-members masked
+        alt = [s for s in walk_local(loop) if isinstance(s, ast.Assign) and isinstance(s.value, ast.Call) and
+               call_name(s.value) == 'np.where' and len(s.value.args) == 3]
+        am = [s for s in walk_local(loop) if isinstance(s, ast.Assign) and 'argmin' in u(s.value)]
+        if alt and am:
+            fill = alt[0].value.args[2]
+            cond = u(alt[0].value.args[0])
+            lab0 = u(loop.target.elts[1]) if isinstance(loop.target, ast.Tuple) else u(loop.target)
+            ok = u(fill) in ('np.inf', 'float("inf")', "float('inf')", 'math.inf') and cond in ('assignments == %s' % lab0, '%s == assignments' % lab0) \
+                and u(alt[0].value.args[1]) == 'distances'
+            ck.check(ok, rule + '.index-space', mod, alt[0], 'find_cluster_centers', u(alt[0]),
+                     'non-members are masked with +inf before the global argmin',
+                     'when the argmin runs over the whole array, frames of other labels must be masked with +inf: masking with a '
+                     'finite value (e.g. np.max(distances)) lets a NON-member win whenever the best member is as far as that value')
+            return
         ck.missing(rule, 'members = np.where(assignments == label)[0]')
         return
     mname = u(mem.targets[0])
